@@ -438,6 +438,22 @@ func renderStateSingle(c *Ctx, rule string) {
 				if id, ok := y.(*ast.Ident); ok && info.ObjectOf(id) == keyObj {
 					mentionsKey = true
 				}
+				// … or looks the state up through an accessor of the package that reads the key (contextValueOf(ctx))
+				if call, ok := y.(*ast.CallExpr); ok {
+					if fn := calleeOf(info, call); fn != nil && fn.Pkg() == p.Types {
+						for _, afd := range allFuncDecls(p) {
+							if info.Defs[afd.Name] != types.Object(fn) || afd.Body == nil || afd == init {
+								continue
+							}
+							ast.Inspect(afd.Body, func(z ast.Node) bool {
+								if zid, ok := z.(*ast.Ident); ok && info.ObjectOf(zid) == keyObj {
+									mentionsKey = true
+								}
+								return true
+							})
+						}
+					}
+				}
 				return true
 			})
 			if mentionsKey {
